@@ -254,6 +254,39 @@ func InspectInlined(df DeclFinder, info *types.Info, pkg *types.Package, body as
 				bind[info.Defs[fd.Recv.List[0].Names[0]]] = sel.X
 			}
 		}
+		// a parameter the callee writes (or takes the address of) no longer denotes the
+		// caller's argument: it is not bound, and Resolve stops at it
+		ast.Inspect(fd.Body, func(m ast.Node) bool {
+			drop := func(e ast.Expr) {
+				if id, ok := Unparen(e).(*ast.Ident); ok {
+					if obj := info.Uses[id]; obj != nil {
+						if _, bound := bind[obj]; bound {
+							delete(bind, obj)
+						}
+					}
+				}
+			}
+			switch x := m.(type) {
+			case *ast.AssignStmt:
+				for _, l := range x.Lhs {
+					drop(l)
+				}
+			case *ast.IncDecStmt:
+				drop(x.X)
+			case *ast.UnaryExpr:
+				if x.Op == token.AND {
+					drop(x.X)
+				}
+			case *ast.RangeStmt:
+				if x.Tok == token.ASSIGN {
+					drop(x.Key)
+					if x.Value != nil {
+						drop(x.Value)
+					}
+				}
+			}
+			return true
+		})
 		active[fd] = true
 		rec(fd.Body, &InlineCtx{Parent: ctx, Call: c, Callee: fd, Bind: bind, Depth: depth + 1}, active)
 		delete(active, fd)
